@@ -3,7 +3,7 @@ package main
 func init() {
 	register(&Spec{
 		ID:       "C09",
-		Pkgs:     []string{"rules", "root"},
+		Pkgs:     []string{"rules", "root", "filterlist"},
 		InitPkgs: []string{"rules"},
 		Jobs: func(tier string) []Job {
 			maxK := 3 // with all six payload kinds; thorough adds k=4 over four kinds and k=5 over three
@@ -11,10 +11,10 @@ func init() {
 			for k := 0; k <= maxK; k++ {
 				jobs = append(jobs, Job{Pkg: "root", Func: "verifC09", Args: []int64{int64(k), 6}})
 			}
-			// all ten payload kinds (adds AAAA, SRV, HTTPS/SVCB, PTR) on pairs (quick) and triples (thorough)
-			jobs = append(jobs, Job{Pkg: "root", Func: "verifC09", Args: []int64{2, 10}})
+			// all eleven payload kinds (adds AAAA, SRV, HTTPS/SVCB, PTR, NS/SOA without a value) on pairs (quick) and triples (thorough)
+			jobs = append(jobs, Job{Pkg: "root", Func: "verifC09", Args: []int64{2, 11}})
 			if tier == "thorough" {
-				jobs = append(jobs, Job{Pkg: "root", Func: "verifC09", Args: []int64{3, 10}})
+				jobs = append(jobs, Job{Pkg: "root", Func: "verifC09", Args: []int64{3, 11}})
 			}
 			if tier == "thorough" {
 				jobs = append(jobs, Job{Pkg: "root", Func: "verifC09", Args: []int64{4, 4}})
@@ -24,8 +24,8 @@ func init() {
 		Setup:     setupNetip,
 		MustReach: []string{"c09.mixed", "c09.two-exceptions"},
 		Bounds: map[string]string{
-			"quick":    "sequences of 0..3 rewrite rules; each rule: exception flag and $important symbolic, payload one of {empty, CNAME, rcode-only, A, TXT, MX} with symbolic contents; pairs over all ten kinds (plus AAAA, SRV, HTTPS/SVCB with a parameter map, PTR)",
-			"thorough": "as quick, plus sequences of 4 rules over {empty, CNAME, rcode-only, A} and triples over all ten kinds",
+			"quick":    "sequences of 0..3 rewrite rules; each rule: exception flag and $important symbolic, payload one of {empty, CNAME, rcode-only, A, TXT, MX} with symbolic contents; pairs over all eleven kinds (plus AAAA, SRV, HTTPS/SVCB with a parameter map, PTR, and NS/SOA whose value is dropped by the parser)",
+			"thorough": "as quick, plus sequences of 4 rules over {empty, CNAME, rcode-only, A} and triples over all eleven kinds",
 		},
 		Outside:     []string{"more than 4 rewrite rules on one hostname", "$badfilter on rewrite rules (C08)"},
 		Assumptions: []string{"rules are built field by field and re-parsed from '||x^$dnsrewrite=...' text during native replay"},
